@@ -156,3 +156,12 @@ def _first_two(interp, args, kwargs, node):
 def _simplified(interp, args, kwargs, node):
     g = args[0]
     return interp.born(opaque(interp, "Graph.simplify", [VObj("Graph", g.term)], None, "Graph"))
+
+
+@extern("itertools.product")
+def _it_product(interp, args, kwargs, node):
+    import itertools as _it
+    lists = [interp.concrete_iter(a) for a in args]
+    if kwargs or any(l is None for l in lists):
+        raise Unsupported("itertools.product over symbolic iterables")
+    return interp.born(VList(ConcreteSeq([VTuple(list(t)) for t in _it.product(*lists)]), "generator"))
